@@ -145,8 +145,17 @@ public:
             m_op = new SVDWideMatOp<Scalar, MatrixType>(mat);
         }
 
-        // Solver object
-        m_eigs = new SymEigsSolver<SVDMatOp<Scalar>>(*m_op, ncomp, ncv);
+        // Solver object; its constructor throws for invalid (ncomp, ncv), and then
+        // the destructor of this class does not run, so m_op has to be released here
+        try
+        {
+            m_eigs = new SymEigsSolver<SVDMatOp<Scalar>>(*m_op, ncomp, ncv);
+        }
+        catch (...)
+        {
+            delete m_op;
+            throw;
+        }
     }
 
     // Destructor
